@@ -46,7 +46,7 @@ chk("C19", "exploration",
 
 DQ = " Liveness clauses are decided only at quiescence of timer-free scenarios (goroutine census); a watchdog expiry without quiescence is INCONCLUSIVE, never a verdict."
 chk("C01", "exploration",
-    "Exactly-once monitor: unique ids through 15 fan-out/fan-in constructs under speed profiles and GOMAXPROCS regimes; multiset(invocations)=multiset(output)=input, exact sequence for Buffer/single worker.",
+    "Exactly-once monitor: unique ids through 16 fan-out/fan-in constructs (incl. fresh pipelines first advanced by several goroutines at once) under speed profiles and GOMAXPROCS regimes; multiset(invocations)=multiset(output)=input, exact sequence for Buffer/single worker.",
     TB + DQ, "runtime monitoring: conservation / exactly-once oracle over recorded invocation and output events", "DESIGN.md §5 C01")
 chk("C03", "fault_enumeration",
     "Fault enumeration: the whole classification table (3 flags x ExcludedErrors x 12 failure kinds) for 5 constructs is enumerated in every run; positions, workers, collectors, speeds are drawn per cell. Oracle from the statement: reported iff reportable (errors.Is), exactly-once in continue modes, abort bound by stamps.",
